@@ -1,4 +1,4 @@
-import BSModel.Proofs.PrettyRaw
+import BSModel.Proofs.PrettyStream
 /-! # C14 — prettify() changes only whitespace and shows the nesting
 
 Property theorems only. `decodeImpl`, `step`, `indentString`, `events`, `receiverStream`, `prettifyImpl`, `indentOf`,
@@ -284,6 +284,35 @@ example : mkTag 7 (ofS "<br/>") (ofS "</br>") (some BS.Gen.Pretty.htmlPreserveWs
     newline — and tab are whitespace; the zero-width space and the markup characters `<`, `>`, `&` are not. -/
 theorem whitespace_table : isSpace 32 = true ∧ isSpace 10 = true ∧ isSpace 9 = true ∧ isSpace 0x200b = false ∧
     isSpace 60 = false ∧ isSpace 62 = false ∧ isSpace 38 = false := by decide +kernel
+
+/-! ## 6b. `_event_stream` itself -/
+
+/-- `_event_stream`'s walk — a stack of open tags, popped (END events) while the next element's parent *is not* the tag on top,
+    START/EMPTY/STRING for the element, everything left closed at the end — over the pre-order of a tree with parent
+    pointers yields exactly the balanced event list the other theorems are about; for `self_and_descendants` of a visible
+    receiver (`p` = its parent, never looked at) and for `descendants` / a hidden receiver (`p` = the receiver). Identities are
+    pairwise distinct here (`Nodup`): the walk compares parents with `is`. -/
+theorem event_stream_refines (p : Nat) (t : Node) (ks : List Node) :
+    ((ids t).Nodup → streamImpl [] (flat p t) = events t) ∧
+    ((idsL ks).Nodup → p ∉ idsL ks → streamImpl [] (flatL p ks) = eventsL ks) := by
+  constructor
+  · intro hn
+    have := stream_node t p [] [] (Or.inl rfl) (by simp) hn
+    simpa [streamImpl] using this
+  · intro hn hp
+    have := stream_forest ks p [] [] (Or.inl rfl) (by simp) hn hp
+    simpa [streamImpl] using this
+
+example : (ids demo).Nodup := by decide
+example : streamImpl [] (flat 99 demo) = events demo := by decide
+/-- two tags with one identity: the walk leaves the inner one open when the outer one's next child arrives -/
+example : streamImpl [] (flat 9 (.elem 1 [60] [62] false [.elem 1 [60] [62] false [], .str [97]])) ≠
+    events (.elem 1 [60] [62] false [.elem 1 [60] [62] false [], .str [97]]) := by decide
+
+/-- End to end: `decode(indent_level=l)` run on what `_event_stream` really yields is the recursive pretty rendering. -/
+theorem decode_on_walk (u : PStr) (l : Int) (p : Nat) (t : Node) (hn : (ids t).Nodup) :
+    decodeImpl u (some l) (streamImpl [] (flat p t)) = prettyNode u l false t := by
+  rw [(event_stream_refines p t []).1 hn, pretty_refines u l t (nodup_distinct t hn)]
 
 /-! ## 7. every tree, hidden whitespace-preserving elements included; verbatim blocks seen from a hidden receiver -/
 
